@@ -371,6 +371,9 @@ func copyCounters(m map[string]int) map[string]int {
 }
 
 func actionKind(a string) string {
+	if strings.Contains(a, "@") {
+		return strings.SplitN(a, ":", 2)[0] + "@preempt"
+	}
 	if i := strings.IndexByte(a, '!'); i >= 0 {
 		rest := a[i+1:]
 		if j := strings.LastIndexByte(rest, '='); j >= 0 {
